@@ -167,6 +167,9 @@ structure Tables where
   /-- `castNumRow[c]` = class of `cast_to_primitive_type(sample of class c, 'xs:numeric')` (xs:untypedAtomic becomes
   xs:double) -/
   castNumRow : List Nat := []
+  /-- index of the Python class `str` in the value-class table: the typed value of a comment / processing instruction /
+  namespace node -/
+  strIdx : Nat := 0
   deriving Repr
 
 def Tables.atomSub (tb : Tables) (a b : Nat) : Bool := (tb.subRows.getD a []).contains b
@@ -732,10 +735,26 @@ def castFor (tb : Tables) (T : Ty) (v : List Item) : List Item :=
   | .leaf .numeric _ => v.map (fun x => match x with | .atom c => .atom (tb.castNumRow.getD c c) | x => x)
   | _ => v
 
+def Item.isNode : Item → Bool
+  | .node _ _ _ _ => true | _ => false
+
+/-- class of the typed value of a node built without a schema (`XPathNode.iter_typed_values`, xpath_nodes.py: an
+`UntypedAtomic` for document / element / attribute / text nodes, a `str` for comments, processing instructions and
+namespace nodes) -/
+def Tables.nodeCls (tb : Tables) : Kind → Nat
+  | .comment => tb.strIdx | .pi => tb.strIdx | .namespace => tb.strIdx
+  | _ => tb.untypedCls
+
+/-- a node replaced by its typed value -/
+def Item.typedValue (tb : Tables) : Item → Item
+  | .node k _ _ _ => .atom (tb.nodeCls k)
+  | x => x
+
 /-- the value bound to a parameter declared `T`, or a type error
-(XPTY0004; FOTY0013 for a function item that cannot be atomized — the model has one "type error" code).  With the
-`fix:` 8197a40 of the pinned tree a value that does not match a type named `xs:…` and contains an array is
-atomized first (the arrays are replaced by their members). -/
+(XPTY0004; FOTY0013 for a function item that cannot be atomized, XPTY0117 — the model has one "type error" code).
+`convert_argument`, xpath30/_xpath30_functions.py l.123-171: a value that does not match a type named `xs:…` is atomized
+— first the arrays are replaced by their members (`iter_flatten`), then (`fix:` 4b599c1) the nodes by their typed values —
+and returned as soon as it matches; what still does not match goes through `cast_to_primitive_type`. -/
 def convertArg (tb : Tables) (xsd11 : Bool) (T : Ty) (v : List Item) : Except Err (List Item) :=
   match matchSt tb xsd11 true T v with
   | .error e => .error e
@@ -747,11 +766,17 @@ def convertArg (tb : Tables) (xsd11 : Bool) (T : Ty) (v : List Item) : Except Er
     | .error e => .error e
     | .ok true => .ok v1
     | .ok false =>
-      let v' := castFor tb T v1
-      match matchSt tb xsd11 true T v' with
+      let nodes := T.isXsName && v1.any Item.isNode
+      let v2 := if nodes then v1.map (Item.typedValue tb) else v1
+      match (if nodes then matchSt tb xsd11 true T v2 else .ok false) with
       | .error e => .error e
-      | .ok true => .ok v'
-      | .ok false => .error .XPDY0050     -- reported as XPTY0004 by the code; the model has one "type error" code
+      | .ok true => .ok v2
+      | .ok false =>
+        let v' := castFor tb T v2
+        match matchSt tb xsd11 true T v' with
+        | .error e => .error e
+        | .ok true => .ok v'
+        | .ok false => .error .XPDY0050     -- reported as XPTY0004 by the code; the model has one "type error" code
 
 /-- the value returned through a declared result type `T` (`validated_result`, functions.py l.166-176): as
 `convertArg` without the atomization of arrays -/
